@@ -272,6 +272,8 @@ func AnalyzeAdapters(p *load.Program, r *Roles, depth int) *UnitResult {
 		col.CheckAt("C17.R1", "item->exec:reached", n > 0, "", "exec function never called for a batch item", nil)
 	}
 
+	// --- the Result constructors the adapters are built on hold exactly their argument ---
+	checkResultCtors(p, r, res, "C17.R6,C01.R8", "C17.ENGINE")
 	// --- Any-style adapters (three construction forms) -------------------------------------
 	analyzeAnyAdapters(p, r, res, vi, ei)
 	// --- delegators: positional passthrough (C01.R6) ---------------------------------------
@@ -438,16 +440,20 @@ func analyzeAnyAdapters(p *load.Program, r *Roles, res *UnitResult, vi, ei int) 
 					ok := pth.rets[0] == uc.res[0] && pth.rets[1] == uc.res[1]
 					col.CheckAt("C17.R3,C17.R4,C04.R6", con, ok, pth.pos, "the post adapter must return the user's action and error unchanged, got ("+prettyArgs(pth.rets)+")", nil)
 				default:
+					errRule := "C17.R3,C17.R4,C04.R6"
+					if kind == "Exec" {
+						errRule += ",C02.R3,C09.R7" // a failed attempt has to look failed: retries, fallback and stop mode key on it
+					}
 					switch c.IsNil(uc.res[1]) {
 					case eng.TriFalse:
-						col.CheckAt("C17.R3,C17.R4,C04.R6", con, pth.rets[1] == uc.res[1], pth.pos, "the adapter must return the user's error itself, got "+pth.rets[1].Pretty(), nil)
+						col.CheckAt(errRule, con, pth.rets[1] == uc.res[1], pth.pos, "the adapter must return the user's error itself, got "+pth.rets[1].Pretty(), nil)
 					case eng.TriTrue:
 						got := pth.rets[0]
 						isNil := func(t *eng.Term) bool { return t.K == eng.KNil || c.IsNil(t) == eng.TriTrue }
 						ok := got.K == eng.KStruct && got.A[vi] == uc.res[0] && isNil(got.A[ei]) && isNil(pth.rets[1])
 						col.CheckAt("C17.R3,C17.R4", con, ok, pth.pos, "the adapter must wrap the user's value exactly once, got "+got.Pretty(), nil)
 					default:
-						col.CheckAt("C17.R3,C17.R4,C04.R6", con, false, pth.pos, "the adapter returns without testing the user's error", nil)
+						col.CheckAt(errRule, con, false, pth.pos, "the adapter returns without testing the user's error", nil)
 					}
 				}
 			}
